@@ -347,6 +347,46 @@ def enum(tree: ast.Module) -> list[tuple[str, int, str, str, Any]]:
     return out
 
 
+def enum_swaps(tree: ast.Module) -> list[tuple[str, int, str, str, Any]]:
+    """Second family (ids <file>:s<k>): two adjacent statements of a function body exchanged - "doing B before A",
+    moving a statement across an await, registering before checking ..."""
+    out: list = []
+
+    def simple(st: ast.stmt) -> bool:
+        if isinstance(st, (ast.FunctionDef, ast.AsyncFunctionDef, ast.ClassDef, ast.Import, ast.ImportFrom, ast.Global, ast.Nonlocal,
+                           ast.Pass, ast.Return, ast.Raise, ast.Break, ast.Continue)):
+            return False
+        if isinstance(st, ast.Expr) and isinstance(st.value, ast.Constant):
+            return False
+        return not _is_log_call(st)
+
+    def visit(body: list, func: str, infunc: bool) -> None:
+        for i, st in enumerate(body):
+            if isinstance(st, (ast.FunctionDef, ast.AsyncFunctionDef)):
+                if st.name in SKIP_FUNCS or any("overload" in ast.unparse(d) for d in st.decorator_list):
+                    continue
+                visit(st.body, f"{func}.{st.name}" if func else st.name, True)
+                continue
+            if isinstance(st, ast.ClassDef):
+                visit(st.body, f"{func}.{st.name}" if func else st.name, False)
+                continue
+            if isinstance(st, ast.If) and ("TYPE_CHECKING" in ast.unparse(st.test) or "version_info" in ast.unparse(st.test)):
+                continue
+            if infunc and i + 1 < len(body) and simple(st) and simple(body[i + 1]):
+                a, b = ast.unparse(st).splitlines()[0][:50], ast.unparse(body[i + 1]).splitlines()[0][:50]
+                out.append(("stmt-swap", st.lineno, func, f"swapped: `{a}` <-> `{b}`",
+                            lambda body=body, i=i: body.__setitem__(slice(i, i + 2), [body[i + 1], body[i]])))
+            for field in ("body", "orelse", "finalbody"):
+                sub = getattr(st, field, None)
+                if isinstance(sub, list) and sub and isinstance(sub[0], ast.stmt):
+                    visit(sub, func, infunc)
+            for h in getattr(st, "handlers", []) or []:
+                visit(h.body, func, infunc)
+
+    visit(tree.body, "", False)
+    return out
+
+
 def all_mutants(files: list[str]) -> list[dict]:
     res = []
     for f in files:
@@ -354,12 +394,19 @@ def all_mutants(files: list[str]) -> list[dict]:
         for k, (op, line, func, desc, _) in enumerate(enum(tree)):
             res.append({"id": f"{f[:-3]}:{k}", "file": f, "k": k, "op": op, "line": line, "func": func, "desc": desc,
                         "props": props_for(f, func)})
+        for k, (op, line, func, desc, _) in enumerate(enum_swaps(ast.parse(open(os.path.join(SRC, f)).read()))):
+            res.append({"id": f"{f[:-3]}:s{k}", "file": f, "k": f"s{k}", "op": op, "line": line, "func": func, "desc": desc,
+                        "props": props_for(f, func)})
     return res
 
 
-def mutated_source(file: str, k: int) -> str:
+def mutated_source(file: str, k: Any) -> str:
     text = open(os.path.join(SRC, file)).read()
     tree = ast.parse(text)
+    if isinstance(k, str) and k.startswith("s"):
+        enum_swaps(tree)[int(k[1:])][4]()
+        ast.fix_missing_locations(tree)
+        return ast.unparse(tree) + "\n"
     sites = enum(tree)
     sites[k][4]()
     ast.fix_missing_locations(tree)
@@ -378,8 +425,17 @@ def _limits() -> None:
     resource.setrlimit(resource.RLIMIT_AS, (6 << 30, 6 << 30))
 
 
+_HEAD: list = []
+
+
+def repo_head() -> str:
+    if not _HEAD:
+        _HEAD.append(subprocess.run(["git", "-C", "/repo", "rev-parse", "--short", "HEAD"], capture_output=True, text=True).stdout.strip())
+    return _HEAD[0]
+
+
 def run_one(m: dict) -> dict:
-    res = dict(m)
+    res = dict(m, repo_head=repo_head())
     scratch = tempfile.mkdtemp(prefix="amut-", dir="/dev/shm" if os.path.isdir("/dev/shm") else None)
     try:
         try:
@@ -467,7 +523,8 @@ def main() -> int:
         for i in a.ids:
             f, k = i.split(":")
             f += ".py"
-            sys.stdout.writelines(difflib.unified_diff(baseline_source(f).splitlines(True), mutated_source(f, int(k)).splitlines(True),
+            k = k if k.startswith("s") else int(k)
+            sys.stdout.writelines(difflib.unified_diff(baseline_source(f).splitlines(True), mutated_source(f, k).splitlines(True),
                                                        "a/" + f, "b/" + f, n=2))
         return 0
     muts = all_mutants(a.files)
@@ -506,7 +563,10 @@ def main() -> int:
 
         done = load_results()
         c = Counter(r["status"] for r in done.values())
+        heads = Counter(r.get("repo_head", "526010c") for r in done.values())
         lines = ["# Automatic mutation screening (tools/automut.py)", "",
+                 "Mutant ids are positions in the enumeration of the source AS IT WAS at the commit of /repo named in each result row ("
+                 + ", ".join(f"{k}: {v} rows" for k, v in sorted(heads.items())) + "); function, line and description are recorded with every row.", "",
                  f"{len(done)} mutants of src/asphalt/core: " + ", ".join(f"{k} {v}" for k, v in sorted(c.items())), "",
                  "`killed` = the repository's tests pass on the mutant and a quick check of a property anchored in the mutated",
                  "function reports a violation; `survived` = tests pass and none of the listed checks objects (see the",
@@ -518,7 +578,7 @@ def main() -> int:
         if os.path.exists(jp):
             judge = json.load(open(jp))
         lines += ["## Survivors (tests pass, no check objects)", "", "| id | function | line | change | checks run | judgement |", "|---|---|---|---|---|---|"]
-        for r in sorted(done.values(), key=lambda r: (r["file"], r["k"])):
+        for r in sorted(done.values(), key=lambda r: (r["file"], str(r["k"]).startswith("s"), int(str(r["k"]).lstrip("s")))):
             if r["status"] == "survived":
                 d = r["desc"].replace("|", "\\|")
                 lines.append(f"| {r['id']} | {r['func']} | {r['line']} | {d} | {' '.join(r.get('checks', {}))} | {judge.get(r['id'], '')} |")
